@@ -139,7 +139,7 @@ def step (ws : List String) : String :=
     | none => "ser bad"
     | some v => if stringsValid v then "ser " ++ Drivers.toHex (serializePretty v) else "ser badutf8"
   | "set" :: d :: sets =>
-    match buildTok d with
+    match (buildTok d).bind fun v => if stringsValid v then some v else none with
     | some (.object ms) =>
       let (root, st) := sets.foldl (fun (acc : Json × String) s =>
         match s.splitOn "=" with
